@@ -55,15 +55,18 @@ impl Integer {
 
     /// create a new negative Integer with the given value
     pub fn new_negative<T: Into<Uint128>>(value: T) -> Self {
+        let value: Uint128 = value.into();
+
+        // zero has a single representation, there is no negative zero
         Self {
-            value: value.into(),
-            negative: true,
+            negative: !value.is_zero(),
+            value,
         }
     }
 
     /// turns positive to negative or negative to positive
     pub fn invert_sign(mut self) -> Self {
-        self.negative = !self.negative;
+        self.negative = !self.negative && !self.value.is_zero();
         self
     }
 
@@ -75,12 +78,12 @@ impl Integer {
 
     #[allow(missing_docs)]
     pub fn is_negative(&self) -> bool {
-        self.negative
+        self.negative && !self.value.is_zero()
     }
 
     #[allow(missing_docs)]
     pub fn is_positive(&self) -> bool {
-        !self.negative
+        !self.is_negative()
     }
 
     #[allow(missing_docs)]
